@@ -684,7 +684,32 @@ class F64Recip:
             return op == 'Ne'
         if t <= 0:
             return {'Lt': False, 'Le': False, 'Gt': True, 'Ge': True, 'Eq': False, 'Ne': True}[op]
-        return None
+        if t == float('inf'):
+            return None
+        # 1/x op t for a non-negative exact x (x == 0 gives +inf): compare x with the exact rational 1/t.  The rounded
+        # quotient 1.0/x can only disagree with this when 1/x is within half an ulp of t without being equal to it, which
+        # cannot happen for the integer x (Spanish 1/n) and the thresholds used; stated as an assumption of the checks.
+        from fractions import Fraction
+        bound = Fraction(1) / Fraction(t)
+        inv = {'Lt': 'Gt', 'Le': 'Ge', 'Gt': 'Lt', 'Ge': 'Le'}.get(op)
+        if inv is None:
+            return None
+        r = self.inner.compare_const(inv, bound)
+        z = self.inner.compare_const('Eq', 0.0)
+        if r is None or z is None:
+            return None
+        guard = []
+
+        def term(x):
+            if isinstance(x, tuple):
+                guard.append(x[1])
+                x = x[2]
+            return z3.BoolVal(x) if isinstance(x, bool) else x
+        r, z = term(r), term(z)
+        res = z3.And(z3.Not(z), r) if op in ('Lt', 'Le') else z3.Or(z, r)
+        if guard:
+            return ('guarded', z3.And(*guard), res)
+        return res
 
     def merge_with(self, c, other):
         if isinstance(other, F64Recip):
